@@ -2,14 +2,20 @@
 # Regenerates MANIFEST.json from the table below (kept in one place so it stays valid).
 import json, subprocess
 claimed = {
+ "C02": ("choice-tree DFS over every 16/32-bit addressing shape x displacement x carrier x width x BITS; reference decoder, effective address compared as a linear form", "7/C02"),
+ "C18": ("choice-tree DFS over ALU-imm/moffs/MOV-imm/PUSH-POP forms x registers x boundary immediates x BITS; length compared with the minimum over the reference encoder's valid encodings", "7/C18"),
  "C01": ("choice-tree DFS over mnemonic x operand form x every register x boundary immediates x BITS; reference x86 decoder (semantic tuple equality, facet by facet)", "7/C01"),
  "C05": ("choice-tree DFS over DB/DW/DD operand lists, RESB, ALIGNB x residue x ORG, non-emitting statements; directive reference model", "7/C05"),
 }
 texts = {
+ "C02": "All 16-bit shapes and all 32-bit base x index x scale shapes (valid and invalid) x 14 boundary displacements x carrier instructions x widths x both modes are assembled by the real pipeline; the emitted prefix/ModRM/SIB/displacement is decoded by the reference decoder and the denoted address is compared, as a linear form modulo the address size, with the address written. Exhaustive within the stated alphabets.",
+ "C18": "For every instruction of the stated space the emitted length is compared with the minimum over all valid encodings listed by an independent reference encoder (whose encodings are first verified to decode back). Exhaustive within the stated alphabets.",
  "C01": "Every cell of the stated product (all operand-less mnemonics, 9 two-operand operations x 3 widths x all register pairs, all 24 registers x boundary immediates, register/memory and memory/immediate forms, unary, shifts, segment/control moves, IN/OUT, PUSH/POP, IMUL, all 256 INT vectors, both modes) is assembled by the real pipeline and the bytes are decoded by an independent reference decoder and compared with the source's meaning (operation, registers in roles, operand size, immediate modulo width, effective address, prefixes, length). Exhaustive within the stated alphabets.",
  "C05": "Every operand list up to the stated length over a 27-item boundary alphabet (and rotations up to length 64), every RESB/ALIGNB/residue/ORG combination and every non-emitting statement is assembled by the real pipeline and compared byte for byte with a directive model; the location counter is compared with the emitted length. Exhaustive within the stated bounds.",
 }
 notes = {
+ "C02": "Trusted: x86ref decoder and MemSpec linear-form comparison. Displacements that do not fit the address width are outside the model. Known findings: four root causes in calculateModRM (index-only, EBP base without displacement, 16-bit pairs in 32-bit mode, zero SIB byte).",
+ "C18": "Trusted: x86ref encoder/decoder pair (26k pairs self-checked per run). Only statements that decode to the source instruction are judged.",
  "C01": "Trusted: x86ref decoder (written from the SDM opcode maps; self-checked; cross-checked against objdump where present). Statements gosk refuses with an error are not judged (DESIGN.md section 5). Known findings: the operand-less opcode table (pinned by a repository test).",
  "C05": "Trusted: the directive reference model (a few lines per directive), sentinel DB lines (members of the explored space), worker = cmd/gosk pipeline (gen.Parse + frontend.Exec), re-confirmed through the real CLI for every reported failure.",
 }
